@@ -1,12 +1,12 @@
 package main
 
 import (
-	"strings"
 	"bytes"
 	"crypto/ecdh"
 	"crypto/ed25519"
 	"fmt"
 	"net/netip"
+	"strings"
 	"time"
 
 	"github.com/fxamacker/cbor/v2"
